@@ -197,6 +197,48 @@ func runC01(c *Ctx) {
 					c.sample(fmt.Sprintf("%s integrity=%v %s key=%q size=%d meta=%v -> %s", kind, integ, path, key, sz, md, trunc(og, 80)))
 				}
 			}
+			// keys that differ only in '/', '_' or '\\' (the fs backends flatten '/' when naming their
+			// metadata files): each keeps its own bytes and headers
+			sib := [][]string{{"sibz/dir/report", "sibz/dir_report"}, {"sibz/a/b/c", "sibz/a_b/c", "sibz/a/b_c"}, {"sibz/x\\y", "sibz/x_y"}}
+			for si, group := range sib {
+				if inst.IsFs() && si == 2 {
+					continue // a backslash is not portable in file names
+				}
+				want := map[string][2]string{}
+				for gi, k := range group {
+					body := []byte(fmt.Sprintf("sibling-%d-%d-%s", si, gi, k))
+					md := map[string]string{"Content-Type": fmt.Sprintf("text/x-sib%d", gi), "X-Amz-Meta-Which": k}
+					h := map[string]string{}
+					for kk, v := range md {
+						h[kk] = v
+					}
+					l, o := r.Put(bucket, k, h, body)
+					r.judgeProj(l, o, "c01:sibling-put", ident, nil)
+					if strings.HasPrefix(o, "stored") {
+						want[k] = [2]string{string(body), metaLine(md)}
+					}
+				}
+				for _, k := range group {
+					if _, ok := want[k]; !ok {
+						continue
+					}
+					lg, og := r.Get(bucket, k)
+					r.judgeProj(lg, og, "c01:sibling-get", ident, nil)
+					c.R.Evaluations++
+					body := []byte(want[k][0])
+					md := map[string]string{"Content-Type": "", "X-Amz-Meta-Which": k}
+					for gi, kk := range group {
+						if kk == k {
+							md["Content-Type"] = fmt.Sprintf("text/x-sib%d", gi)
+						}
+					}
+					if !strings.HasPrefix(og, fmt.Sprintf("obj %s %s ", drv.Hex(body), etagOf(body))) || !sentSubset(md, og) {
+						c.mismatch(Mismatch{Kind: "spec", Backend: kind, Case: append(append([]string{}, r.Lines...)), Finger: "c01:sibling-keys",
+							Impl: trunc(og, 300), Spec: fmt.Sprintf("key %q returns its own bytes and headers (%s)", k, want[k][1])})
+						break
+					}
+				}
+			}
 			inst.Close()
 		}
 	}
